@@ -20,6 +20,8 @@ import CaddyModel.C19.ClientAuth
 import CaddyModel.C19.Caddyfile
 import CaddyModel.Gen.Glue
 import CaddyModel.C19.Quic
+import CaddyModel.C19.Conn
+import CaddyModel.Gen.Enforcement
 
 namespace CaddyModel.C19
 
@@ -979,5 +981,114 @@ example : serve true [[115, 46, 116]] (some [128, 46, 116]) [115, 46, 116] = .mi
 -- the two equivalences: ſ.t is EqualFold-equal to s.t but does not lower to it; K.t lowers to k.t
 example : foldSame [128, 46, 116] [115, 46, 116] ∧ ¬ namesSameHost [128, 46, 116] [115, 46, 116] ∧
     namesSameHost [129, 46, 116] [107, 46, 116] ∧ namesSameHost [130] [131] ∧ isAscii [128] = false := by decide
+
+/-! ## F. a connection carries MANY requests: the strict check is per request
+
+The SNI is fixed by the handshake, the Host header (`:authority`) is chosen by the client for every
+request of the connection (HTTP/1.1 keep-alive, HTTP/2 / HTTP/3 streams).  `serveConn` threads the
+connection context through the requests as net/http does; the request path never writes to it.
+The harness's `conn` op is ONE real connection (h1 / h2 / h3) to a running caddy server with a
+sequence of requests. -/
+
+/-- the request path leaves the connection context as it found it -/
+theorem request_leaves_connection_context (strict : Bool) (sites : List Bytes) (c : ConnCtx) (host : Bytes) :
+    (connStep strict sites c host).1 = c := rfl
+
+theorem serveConnFrom_eq_map (strict : Bool) (sites : List Bytes) (c : ConnCtx) (hosts : List Bytes) :
+    serveConnFrom strict sites c hosts = hosts.map (serve strict sites (some c.sni)) := by
+  induction hosts generalizing c with
+  | nil => rfl
+  | cons h hs ih => simp [serveConnFrom, connStep, ih]
+
+/-- **the verdict on request k of a connection is the verdict on that request alone** — on a fresh
+    connection under the same SNI — whatever was sent before it (every prefix `pre`) and after it;
+    and extending a connection by one request never changes the verdicts already given. -/
+theorem enforcement_is_per_request (strict : Bool) (sites : List Bytes) (sni : Bytes)
+    (pre post : List Bytes) (h : Bytes) :
+    (serveConn strict sites sni (pre ++ h :: post))[pre.length]? = some (serve strict sites (some sni) h) ∧
+    (serveConn strict sites sni (pre ++ h :: post))[pre.length]? = (serveConn strict sites sni [h])[0]? ∧
+    serveConn strict sites sni (pre ++ [h]) = serveConn strict sites sni pre ++ serveConn strict sites sni [h] := by
+  simp [serveConn, serveConnFrom_eq_map]
+
+/-- every verdict of a connection is the single-request verdict of the request at that position -/
+theorem conn_request_verdict (strict : Bool) (sites : List Bytes) (sni : Bytes) (hosts : List Bytes)
+    (i : Nat) (v : Served) (hi : (serveConn strict sites sni hosts)[i]? = some v) :
+    ∃ h, hosts[i]? = some h ∧ v = serve strict sites (some sni) h := by
+  simp only [serveConn, serveConnFrom_eq_map, List.getElem?_map] at hi
+  cases hh : hosts[i]? with
+  | none => simp [hh] at hi
+  | some h => exact ⟨h, rfl, by simpa [hh] using hi.symm⟩
+
+/-- under strict checking EVERY request of a connection is refused with 421 iff its own Host does
+    not name the connection's SNI -/
+theorem strict_421_on_every_request (sites : List Bytes) (sni : Bytes) (hosts : List Bytes) (i : Nat) (h : Bytes)
+    (hh : hosts[i]? = some h) :
+    (serveConn true sites sni hosts)[i]? = some .misdirected ↔
+      ¬ (isAscii sni = true ∧ foldSame sni (enforcementHost h)) := by
+  simp only [serveConn, serveConnFrom_eq_map, List.getElem?_map, hh, Option.map_some, Option.some.injEq]
+  exact strict_421 sites sni h
+
+/-- `client_auth_not_bypassed` for every request of every connection: whichever requests preceded
+    it, a request routed to a site's handler travels on a connection whose first-match policy is
+    that site's first-match policy -/
+theorem client_auth_not_bypassed_on_connection (ps : List Policy) (sites : List Bytes) (sni site : Bytes)
+    (v : Nat → Bool) (k : Nat) (hosts : List Bytes) (i : Nat)
+    (hauth : ∃ p ∈ ps, p.clientAuth = true)
+    (hsni : noBrackets sni = true) (hstar : ∀ s ∈ sites, noStar s = true)
+    (hsites : ∀ s ∈ sites, isAscii s = true)
+    (hs : (serveConn (effectiveStrict none ps) sites sni hosts)[i]? = some (.handler (some k)))
+    (hk : sites[k]? = some site) :
+    choose false ps ⟨sni, v⟩ = choose false ps ⟨site, v⟩ := by
+  obtain ⟨h, _, hv⟩ := conn_request_verdict _ _ _ _ _ _ hs
+  exact client_auth_not_bypassed ps sites sni h site v k hauth hsni hstar hsites hv.symm hk
+
+/-- **a client-auth site is unreachable under another SNI, on every request of the connection**:
+    if the connection's SNI selected a policy WITHOUT client authentication while the site's name
+    selects one WITH it, then no request of any sequence on that connection — first or later — is
+    served by that site (strict_sni_host left to its default). -/
+theorem client_auth_site_unreachable_under_other_sni (ps : List Policy) (sites : List Bytes) (sni site : Bytes)
+    (v : Nat → Bool) (k j j' : Nat) (p p' : Policy) (hosts : List Bytes)
+    (hsni : noBrackets sni = true) (hstar : ∀ s ∈ sites, noStar s = true)
+    (hsites : ∀ s ∈ sites, isAscii s = true)
+    (hk : sites[k]? = some site)
+    (hsel : choose false ps ⟨sni, v⟩ = .config j) (hj : ps[j]? = some p) (hp : p.clientAuth = false)
+    (hsite : choose false ps ⟨site, v⟩ = .config j') (hj' : ps[j']? = some p') (hp' : p'.clientAuth = true) :
+    ∀ i : Nat, (serveConn (effectiveStrict none ps) sites sni hosts)[i]? ≠ some (Served.handler (some k)) := by
+  intro i hs
+  have hauth : ∃ q ∈ ps, q.clientAuth = true := ⟨p', List.mem_of_getElem? hj', hp'⟩
+  have e := client_auth_not_bypassed_on_connection ps sites sni site v k hosts i hauth hsni hstar hsites hs hk
+  rw [hsel, hsite] at e
+  cases e
+  rw [hj] at hj'
+  cases hj'
+  rw [hp] at hp'
+  cases hp'
+
+/-- tie to the source, regenerated on every run: `enforcementHandler` reads the request's `TLS`
+    (`.ServerName`) and `Host` and the server's `StrictSNIHost` — no context value, no other field,
+    no package-level state (its free identifiers are packages, `Error`, `isASCII` and constants) —
+    and writes only `r.Close`; its body is the `if` and the call of the next handler. -/
+theorem enforcement_reads_only_sni_and_host_matches_source :
+    Gen.enforcementSelectors = ["next.ServeHTTP", "r.Close", "r.Host", "r.TLS", "r.TLS.ServerName", "s.StrictSNIHost"] ∧
+    Gen.enforcementWrites = ["r.Close"] ∧
+    Gen.enforcementFreeIdents = ["Error", "fmt", "http", "isASCII", "net", "nil", "strings", "true"] ∧
+    Gen.enforcementTopStmts = 2 := by decide
+
+/-- … and the only per-connection value caddy's http.Server puts into a request's context is the
+    `net.Conn` itself (`ConnCtxKey`; `ServeHTTP` reads r.TLS from it when net/http left it nil):
+    one `ConnContext` literal, one key, no `BaseContext` -/
+theorem conn_context_values_match_source :
+    Gen.httpConnContextKeys = ["ConnCtxKey"] ∧ Gen.httpConnContextLiterals = 1 ∧
+    Gen.httpBaseContextSet = false := by decide
+
+-- connections: SNI c.t (catch-all policy 1, no client auth); a request for c.t passes, the next one for the
+-- client-auth site a.t is refused, the one after that passes again
+def nC : Bytes := [99, 46, 116]            -- "c.t"
+def exConnPolicies : List Policy := [⟨[.sni [nA]], false, true⟩, ⟨[], false, false⟩]   -- sni a.t + client auth; catch-all
+example : serveConn (effectiveStrict none exConnPolicies) [nA, nC] nC [nC, nA, nC ++ cColon :: [56, 48], [], nAup] =
+    [.handler (some 1), .misdirected, .handler (some 1), .misdirected, .misdirected] := by decide
+example : choose false exConnPolicies ⟨nC, fun _ => false⟩ = .config 1 ∧ choose false exConnPolicies ⟨nA, fun _ => false⟩ = .config 0 ∧
+    noBrackets nC = true ∧ [nA, nC][0]? = some nA := by decide
+example : (serveConn true [nA] nC [nC, nA])[1]? = some .misdirected ∧ (serveConn false [nA] nC [nC, nA])[1]? = some (.handler (some 0)) := by decide
 
 end CaddyModel.C19
